@@ -29,7 +29,8 @@ ACTIONS = ['connect-hold', 'connect-hold', 'connect-refused',
            'disconnect-immediate', 'double-disconnect', 'disconnect-other-'
            'thread', 'reconnect-listener', 'reconnect-exc-handler',
            'reconnect-exit-callback', 'cancel-reconnect-listener',
-           'stall-then-disconnect']
+           'stall-then-disconnect', 'negotiation-silent-then-disconnect',
+           'reconnect-listener-lingers']
 
 
 class Harness(object):
@@ -58,6 +59,13 @@ class Harness(object):
         hs = scripts.read_handshake(io)
         if hs is None:
             io.phase = 'closed-early'
+            return
+        if hs['next_state'] == 1 and self.next_mode == 'status-silent':
+            # a server that accepts the status query and never answers it
+            io.recv_frame()
+            io.phase = 'status-silent'
+            self.next_mode = 'hold'
+            self._await_eof(io)
             return
         if hs['next_state'] == 1:
             io.recv_frame()
@@ -134,10 +142,10 @@ class Harness(object):
                 except mcserver.ScriptTimeout:
                     pass
                 io.results.put(ok)
-            elif cmd[0] in ('trigger', 'cancel'):
+            elif cmd[0] in ('trigger', 'cancel', 'linger'):
                 cid, cp = codec.encode('cb_chat', {
                     'json': '{"text":"%s"}' % (
-                        'reconnect' if cmd[0] == 'trigger' else 'cancel'),
+                        'reconnect' if cmd[0] == 'trigger' else cmd[0]),
                     'position': 0,
                     'sender': '00000000-0000-0000-0000-000000000001'})
                 io.send_frame(cid, cp)
@@ -319,6 +327,12 @@ def history_case(run, rng, pv, actions, idx, encrypted=False):
                 conn.disconnect()
                 conn.connect()
                 conn.disconnect()
+            elif 'linger' in packet.json_data:
+                # reconnect, then keep the (old) networking thread busy in
+                # this callback for a while
+                conn.disconnect()
+                conn.connect()
+                time.sleep(linger_s)
             elif 'reconnect' in packet.json_data:
                 conn.disconnect()
                 conn.connect()
@@ -326,6 +340,7 @@ def history_case(run, rng, pv, actions, idx, encrypted=False):
                                       clientbound.play.ChatMessagePacket)
         state = 'idle'
         live = None
+        linger_s = 3.0 if idx % 2 == 0 else 4.0
 
         def bad(key, what, **extra):
             run.violation(key, what, dict(w, at_step=step, action=action,
@@ -535,6 +550,100 @@ def history_case(run, rng, pv, actions, idx, encrypted=False):
                 H.next_mode = 'hold'
                 state = 'idle'
                 run.count('disconnects_of_stalled')
+            elif action == 'negotiation-silent-then-disconnect':
+                if state != 'idle':
+                    continue
+                other = 47 if pv != 47 else 340
+                conn.allowed_proto_versions = {pv, other}
+                H.next_mode = 'status-silent'
+                # (the reader, woken by the socket shutdown, gets its turn
+                # before disconnect() goes on to close the stream)
+                conn.vf_close_delay = 0.05
+                try:
+                    conn.connect()
+                except Exception as e:
+                    conn.allowed_proto_versions = {pv}
+                    bad('idle/connect-raised', 'connect() on an idle '
+                        'connection raised', raised=repr(e))
+                    return None
+                ok = pc.wait_for(lambda: len(H.ios) > n_ios and getattr(
+                    H.ios[-1], 'phase', '') == 'status-silent', 10.0)
+                conn.allowed_proto_versions = {pv}
+                if not ok:
+                    return 'silent status step never reached'
+                time.sleep(0.05)      # the client now waits for the reply
+                errs = []
+
+                def call():
+                    try:
+                        conn.disconnect(immediate=rng.random() < 0.5)
+                    except BaseException as e:
+                        errs.append(e)
+                t = threading.Thread(target=call, name='user-b')
+                t.start()
+                t.join(8.0)
+                idle = not t.is_alive() and pc.wait_idle(conn, 8.0)
+                conn.vf_close_delay = 0
+                time.sleep(0.1)
+                if errs:
+                    bad('disconnect-raised/negotiating/%s'
+                        % type(errs[0]).__name__, 'disconnect() raised',
+                        error=repr(errs[0]))
+                    return None
+                if len(H.ios) != n_ios + 1:
+                    bad('disconnect/negotiation-goes-on', 'disconnect() during'
+                        ' version negotiation was answered by a new TCP '
+                        'connection', connections=len(H.ios) - n_ios)
+                    pc.safe_disconnect(conn)
+                    return None
+                if not idle:
+                    bad('disconnect/thread-alive', 'networking thread did not '
+                        'terminate after disconnect() during version '
+                        'negotiation', threads=pc.dump_threads()[-600:])
+                    return None
+                H.next_mode = 'hold'
+                state = 'idle'
+                run.count('disconnects_during_negotiation')
+            elif action == 'reconnect-listener-lingers':
+                if state != 'active':
+                    continue
+                H.next_mode = 'hold'
+                t_linger = time.monotonic()
+                live.cmds.put(('linger',))
+                new = reach_play(n_ios) if pc.wait_for(
+                    lambda: len(H.ios) > n_ios, 8.0) else None
+                # (the successor may only start once the old thread has left
+                # its callback: allow for the lingering)
+                if new is None:
+                    new = reach_play(n_ios)
+                if new is None or not H.alive(new):
+                    bad('reconnect/listener', 'disconnect()+connect() from a '
+                        'listener that then lingers did not produce a working '
+                        'session', exc=repr(rec.exceptions[n_exc:]))
+                    return None
+                # wait until the old thread has really left the callback
+                time.sleep(max(0.0, t_linger + linger_s + 0.4 -
+                               time.monotonic()))
+                live = new
+                run.count('reconnects_from_lingering_listener')
+                # the new session is the active one: a further connect() must
+                # be refused and leave it undisturbed
+                n_now = len(H.ios)
+                try:
+                    conn.connect()
+                    raised = None
+                except Exception as e:
+                    raised = e
+                if not isinstance(raised, InvalidState):
+                    bad('active/not-refused', 'connect()/status() on an '
+                        'active connection must raise InvalidState (after a '
+                        'listener reconnected and lingered)',
+                        raised=repr(raised), lingered_s=linger_s)
+                    return None
+                if len(H.ios) != n_now or not H.alive(live):
+                    bad('active/disturbed', 'the live connection no longer '
+                        'echoes keep-alives after a refused call')
+                    return None
             elif action == 'cancel-reconnect-listener':
                 if state != 'active':
                     continue
